@@ -26,11 +26,13 @@ struct Model {
     struct State {
         uint8_t oid[NNAMES];
         uint8_t types[NNAMES];
+        uint8_t orphan[NNAMES];  // tags attached (addType) to a name that holds no object: what becomes of them is not specified
+        bool operator==(const State& o) const { return memcmp(this, &o, sizeof *this) == 0; }
     };
     static uint64_t hash(const State& s)
     {
         uint64_t h = 0;
-        for (int i = 0; i < NNAMES; i++) h = h * 4099 + s.oid[i] * 8u + s.types[i];
+        for (int i = 0; i < NNAMES; i++) h = h * 4099 + s.oid[i] * 64u + s.types[i] * 8u + s.orphan[i];
         return h;
     }
     static uint64_t objs_sig(const State& s)
@@ -47,14 +49,34 @@ struct Model {
             case ADD:
             case ADDT:
                 if (s.oid[o.a] == 0) {
+                    // a name without an object accepts the object, whatever tags were attached to the bare name before. The
+                    // tags of the new entry: its own, the earlier ones, or both (the statement does not say; the unchanged
+                    // library keeps the earlier ones only)
                     if (o.r != 1) return;
+                    uint8_t own = (o.op == ADDT) ? static_cast<uint8_t>(1u << o.r2) : 0;
                     n.oid[o.a] = static_cast<uint8_t>(o.b);
-                    n.types[o.a] = (o.op == ADDT) ? static_cast<uint8_t>(1u << o.r2) : 0;
-                } else if (o.r != 0) return;
+                    n.orphan[o.a] = 0;
+                    n.types[o.a] = own;
+                    out.push_back(n);
+                    if (s.orphan[o.a]) {
+                        n.types[o.a] = s.orphan[o.a];
+                        if (n.types[o.a] != own) out.push_back(n);
+                        n.types[o.a] = static_cast<uint8_t>(own | s.orphan[o.a]);
+                        if (n.types[o.a] != own && n.types[o.a] != s.orphan[o.a]) out.push_back(n);
+                    }
+                    return;
+                }
+                if (o.r != 0) return;
                 out.push_back(n);
                 return;
             case ADDTYPE:
-                if (s.oid[o.a] == 0) return;  // never generated for absent names
+                if (s.oid[o.a] == 0) {
+                    // addType on a bare name: ignored, or remembered for the name
+                    out.push_back(n);
+                    n.orphan[o.a] |= static_cast<uint8_t>(1u << o.b);
+                    if (n.orphan[o.a] != s.orphan[o.a]) out.push_back(n);
+                    return;
+                }
                 n.types[o.a] |= static_cast<uint8_t>(1u << o.b);
                 out.push_back(n);
                 return;
@@ -97,12 +119,27 @@ struct Model {
                 if (s.oid[o.a] != 0 && s.oid[o.b] == 0) {
                     if (o.r != 1) return;
                     n.oid[o.b] = s.oid[o.a];
+                    n.orphan[o.b] = 0;
                     n.types[o.b] = s.types[o.a];
-                } else if (o.r != 0) return;
+                    out.push_back(n);
+                    if (s.orphan[o.b]) {  // tags attached to the bare destination name before: see ADD
+                        n.types[o.b] = s.orphan[o.b];
+                        if (n.types[o.b] != s.types[o.a]) out.push_back(n);
+                        n.types[o.b] = static_cast<uint8_t>(s.types[o.a] | s.orphan[o.b]);
+                        if (n.types[o.b] != s.types[o.a] && n.types[o.b] != s.orphan[o.b]) out.push_back(n);
+                    }
+                    return;
+                }
+                if (o.r != 0) return;
                 out.push_back(n);
                 return;
             case CHECKTYPE: {
-                bool want = s.oid[o.a] != 0 && ((s.types[o.a] >> o.b) & 1);
+                if (s.oid[o.a] == 0) {
+                    // a bare name: false, or true for a tag that was attached to the bare name
+                    if (o.r == 0 || ((s.orphan[o.a] >> o.b) & 1)) out.push_back(n);
+                    return;
+                }
+                bool want = ((s.types[o.a] >> o.b) & 1);
                 if ((o.r != 0) == want) out.push_back(n);
                 return;
             }
@@ -288,7 +325,6 @@ int main(int argc, char** argv)
             setup.push_back(POp{ADDT, pinned, next_oid++, static_cast<int>(rng.below(3))});
         }
         // sequential model to know which names are present (seq mode only: addType on present names)
-        std::set<int> present_seq;
         for (int t = 0; t < nthreads; t++) {
             int nops = seq ? static_cast<int>(rng.range(5, 18)) : static_cast<int>(rng.range(2, 4));
             for (int i = 0; i < nops; i++) {
@@ -304,7 +340,7 @@ int main(int argc, char** argv)
                     }
                     if (p.op == ADDTYPE) {
                         p.b = static_cast<int>(rng.below(3));
-                        if (seq) break;  // validated below against the running model
+                        if (seq || rng.chance(40)) break;  // any name, also one that holds no object (just now)
                         if (pinned < 0) continue;
                         p.a = pinned;
                     }
@@ -334,49 +370,43 @@ int main(int argc, char** argv)
         R.program(pj);
         run_thread(*soh, 0, setup, hist[vrf::MAXT], kept[vrf::MAXT]);
         if (seq) {
-            // seq mode: drop addType ops on names that are absent at that point (their effect is unspecified)
-            Model::State st{};
-            std::vector<LinOp> tmp;
-            for (auto& o : hist[vrf::MAXT]) {
-                std::vector<Model::State> out;
-                Model::step(st, o, out);
-                if (!out.empty()) st = out[0];
-            }
-            // run op by op so that the filter can use the model state
-            std::vector<POp> filtered;
-            std::vector<LinOp> h1;
+            // seq mode: the set of reference-model states that explain everything observed so far (the model is
+            // non-deterministic where the statement is silent: tags attached to a bare name, aliased objects removed by predicate)
+            std::vector<Model::State> frontier{Model::State{}};
+            auto advance = [&](const LinOp& o, const std::vector<LinOp>& sofar) {
+                std::vector<Model::State> next;
+                for (auto& st : frontier) {
+                    std::vector<Model::State> out;
+                    Model::step(st, o, out);
+                    for (auto& c : out)
+                        if (std::find(next.begin(), next.end(), c) == next.end()) next.push_back(c);
+                }
+                if (next.empty())
+                    vrf::violation("oracle:seq_result_not_allowed_by_reference_model",
+                                   "{\"op\":" + vrf::linop_json(o, OPN) + ",\"history\":" +
+                                       vrf::jarr(sofar.begin(), sofar.end(), [](const LinOp& x) { return vrf::linop_json(x, OPN); }) + "}");
+                frontier.swap(next);
+            };
+            for (auto& o : hist[vrf::MAXT]) advance(o, hist[vrf::MAXT]);
             for (auto& p : scripts[0]) {
-                if (p.op == ADDTYPE && st.oid[p.a] == 0) continue;
                 std::vector<POp> one{p};
                 size_t before = hist[0].size();
                 run_thread(*soh, 0, one, hist[0], kept[0]);
-                std::vector<Model::State> out;
-                Model::step(st, hist[0][before], out);
-                if (out.empty()) {
-                    vrf::violation("oracle:seq_result_not_allowed_by_reference_model",
-                                   "{\"op\":" + vrf::linop_json(hist[0][before], OPN) + ",\"history\":" +
-                                       vrf::jarr(hist[0].begin(), hist[0].end(), [](const LinOp& o) { return vrf::linop_json(o, OPN); }) + "}");
-                }
-                if (out.size() == 1) st = out[0];
-                else {
-                    // ambiguous (aliased object removed by predicate): resolve by asking the holder which name is gone
-                    bool resolved = false;
-                    for (auto& cand : out) {
-                        bool okc = true;
-                        for (int i = 0; i < NNAMES; i++) {
-                            auto f = soh->findObject(std::string(NAMES[i]));
-                            uint8_t v = f ? static_cast<uint8_t>(f->value()) : 0;
-                            if (v != cand.oid[i]) okc = false;
-                        }
-                        if (okc) {
-                            st = cand;
-                            resolved = true;
-                            break;
-                        }
+                advance(hist[0][before], hist[0]);
+                // the objects stored under each name are never ambiguous for long: ask the holder
+                std::vector<Model::State> keep;
+                for (auto& cand : frontier) {
+                    bool okc = true;
+                    for (int i = 0; i < NNAMES; i++) {
+                        auto f = soh->findObject(std::string(NAMES[i]));
+                        uint8_t v = f ? static_cast<uint8_t>(f->value()) : 0;
+                        if (v != cand.oid[i]) okc = false;
                     }
-                    if (!resolved) vrf::violation("oracle:seq_state_not_allowed_by_reference_model", "{}");
+                    if (okc) keep.push_back(cand);
                 }
-                filtered.push_back(p);
+                if (keep.empty()) vrf::violation("oracle:seq_state_not_allowed_by_reference_model", "{}");
+                frontier.swap(keep);
+                if (frontier.size() > 1) vrf::count("seq_steps_with_several_model_states");
             }
             vrf::res.rounds_done++;
         } else {
